@@ -453,7 +453,7 @@ class InterleavedDataReader(BaseDataReader):
     """ Reads data in a TDMS segment with interleaved data
     """
 
-    def read_data_chunks(self, file, data_objects, num_chunks):
+    def read_data_chunks(self, file, data_objects, num_chunks, includes_final_chunk=True):
         """ Read multiple data chunks at once
         """
         if len(data_objects) == 0:
@@ -462,13 +462,18 @@ class InterleavedDataReader(BaseDataReader):
             set((o.number_values for o in data_objects))) == 1)
         if not same_length:
             raise ValueError("Cannot read interleaved data with different chunk sizes")
-        return [self._read_interleaved_chunks(file, data_objects, num_chunks)]
+        num_values = data_objects[0].number_values * num_chunks
+        if includes_final_chunk and self.final_chunk_lengths_override is not None:
+            # The final chunk has less data than expected, don't read past the end of the segment
+            num_values -= (data_objects[0].number_values -
+                           self.final_chunk_lengths_override.get(data_objects[0].path, 0))
+        return [self._read_interleaved_chunks(file, data_objects, num_values)]
 
     def read_channel_data_chunks(self, file, data_objects, channel_path, chunk_offset, stop_chunk):
         """ Read multiple data chunks for a single channel at once
         """
         num_chunks = stop_chunk - chunk_offset
-        all_chunks = self.read_data_chunks(file, data_objects, num_chunks)
+        all_chunks = self.read_data_chunks(file, data_objects, num_chunks, stop_chunk == self.num_chunks)
         return [data_chunk_to_channel_chunk(chunk, channel_path) for chunk in all_chunks]
 
     def _read_data_chunk(self, file, data_objects, chunk_index):
@@ -476,7 +481,7 @@ class InterleavedDataReader(BaseDataReader):
         """
         raise NotImplementedError("Reading a single chunk is not implemented for interleaved data")
 
-    def _read_interleaved_chunks(self, file, data_objects, num_chunks):
+    def _read_interleaved_chunks(self, file, data_objects, num_values):
         """Read interleaved data where all channels have a sized data type and the same length
         """
         total_data_width = sum(o.data_type.size for o in data_objects)
@@ -484,7 +489,7 @@ class InterleavedDataReader(BaseDataReader):
 
         # Read all data into 1 byte unsigned ints first
         combined_data = read_interleaved_segment_bytes(
-            file, total_data_width, data_objects[0].number_values * num_chunks)
+            file, total_data_width, num_values)
 
         # Now get arrays for each channel
         channel_data = {}
